@@ -6,6 +6,8 @@ CONSTANTS NP = 3
   Cap = 99
   D = 40
   Skip <- MCNoSkip
+  ResOut = 65534
+  ResOther = 65529
   Thin = FALSE
 INIT Init
 NEXT Next
